@@ -350,7 +350,7 @@ pub fn defs() -> Vec<PropDef> {
         },
         PropDef {
             id: "C05", salt: 5, budget: (800, 15_000, 100), specs: &[spec_c05],
-            required: &[("c05.bond.fee_charged", 1), ("c05.unbond.fee_charged", 1), ("c05.convert_stsei_bsei.fee_charged", 1), ("c05.convert_bsei_stsei.fee_charged", 1), ("c05.bond.restoring_cap_binding", 1), ("c05.unbond.restoring_cap_binding", 1), ("c05.convert_stsei_bsei.restoring_cap_binding", 1), ("c05.bond.at_or_above_threshold", 1), ("c05.ops_exactly_at_threshold_below_one", 1), ("c05.bond.proportional_cap_binding", 1), ("c05.unbond.proportional_cap_binding", 1)],
+            required: &[("c05.bond.fee_charged", 1), ("c05.unbond.fee_charged", 1), ("c05.convert_stsei_bsei.fee_charged", 1), ("c05.convert_bsei_stsei.fee_charged", 1), ("c05.bond.at_or_above_threshold", 1), ("c05.ops_exactly_at_threshold_below_one", 1)],
             rule: "full-world histories steered into slashed states with fee/threshold swarms; a case is a successful operation on one of the four fee paths; distinct = (path, below threshold?, fee charged?, proportional cap binding?, decade of base, rate class)",
         },
         PropDef {
@@ -360,7 +360,7 @@ pub fn defs() -> Vec<PropDef> {
         },
         PropDef {
             id: "C07", salt: 7, budget: (500, 10_000, 100), specs: &[spec_c07],
-            required: &[("c07.unbonds", 1), ("c07.unbonds_via_send_from", 1), ("c07.unbonds_closing_a_batch", 1), ("c07.unbonds_into_mixed_batch", 1), ("c07.withdrawals", 1), ("c07.forged_receive_rejected", 1), ("c07.closed_batch_sum_checks", 1)],
+            required: &[("c07.unbonds", 1), ("c07.unbonds_via_send_from", 1), ("c07.unbonds_closing_a_batch", 1), ("c07.unbonds_into_mixed_batch", 1), ("c07.withdrawals", 1), ("c07.forged_receive_attempts", 1), ("c07.closed_batch_sum_checks", 1)],
             rule: "full-world histories with many unbonders and allowances; a case is an accepted unbond; distinct = (token, via allowance?, fee charged?, closes batch?, decade of amount, ledger size)",
         },
         PropDef {
@@ -375,12 +375,12 @@ pub fn defs() -> Vec<PropDef> {
         },
         PropDef {
             id: "C13", salt: 13, budget: (400, 8_000, 100), specs: &[spec_c13],
-            required: &[("c13.removals_with_stake_redelegated", 1), ("c13.removals_while_redelegation_locked", 1), ("c13.last_validator_removal_rejected", 1), ("c13.removals_of_re_added_validator", 1), ("c13.removals_with_pending_rewards", 1), ("c13.removals_with_inflight_batches", 1), ("c13.delegations_checked", 1)],
+            required: &[("c13.removals_with_stake_redelegated", 1), ("c13.last_validator_removal_rejected", 1), ("c13.removals_of_re_added_validator", 1), ("c13.removals_with_pending_rewards", 1), ("c13.removals_with_inflight_batches", 1), ("c13.delegations_checked", 1)],
             rule: "full-world histories with frequent registry changes; a case is a successful removal by the owner; distinct = (kind, registry size, #redelegations, decade of stake, pending rewards?)",
         },
         PropDef {
             id: "C14", salt: 14, budget: (1000, 20_000, 100), specs: &[spec_c14, spec_c14, spec_c14_full],
-            required: &[("c14.invariant_checks", 1), ("c14.index_updates_with_holders", 1), ("c14.index_updates_without_holders", 1), ("c14.index_updates_without_holders_with_undistributed_delivery", 1), ("c14.claims_ok", 1), ("c14.claims_to_third_party", 1), ("c14.claims_keeping_a_fraction", 1), ("c14.updates_one_unit_against_huge_supply", 1), ("c14.updates_huge_reward_against_dust_supply", 1)],
+            required: &[("c14.invariant_checks", 1), ("c14.index_updates_with_holders", 1), ("c14.index_update_attempts_without_holders_with_undistributed_delivery", 1), ("c14.claims_ok", 1), ("c14.claims_to_third_party", 1), ("c14.claims_keeping_a_fraction", 1), ("c14.updates_one_unit_against_huge_supply", 1), ("c14.updates_huge_reward_against_dust_supply", 1)],
             rule: "reward-contract world (real reward contract + bSei token + hub config; deliveries by bank transfer + UpdateGlobalIndex from the dispatcher address; mint/burn by the hub address); a case is a claim or an index update; distinct = (kind, decade of amount, fraction kept? / decade of supply, third-party recipient?, #holders)",
         },
         PropDef {
@@ -390,7 +390,7 @@ pub fn defs() -> Vec<PropDef> {
         },
         PropDef {
             id: "C16", salt: 16, budget: (600, 12_000, 100), specs: &[spec_c16, spec_c16, spec_c16_reward],
-            required: &[("c16.mirror_checks", 1), ("c16.bsei_op.transfer", 1), ("c16.bsei_op.transfer_from.via_allowance", 1), ("c16.bsei_op.burn_from.via_allowance", 1), ("c16.bsei_op.unbond_bsei", 1), ("c16.bsei_op.unbond_bsei.via_allowance", 1), ("c16.bsei_op.convert_bsei_stsei", 1), ("c16.bsei_op.convert_stsei_bsei", 1), ("c16.bsei_op.send_dummy", 1), ("c16.self_transfers", 1)],
+            required: &[("c16.mirror_checks", 1), ("c16.bsei_op.transfer", 1), ("c16.bsei_op.transfer_from.via_allowance", 1), ("c16.bsei_op.burn_from.via_allowance", 1), ("c16.bsei_op.unbond_bsei", 1), ("c16.bsei_op.unbond_bsei.via_allowance", 1), ("c16.bsei_op.convert_bsei_stsei", 1), ("c16.bsei_op.convert_stsei_bsei", 1), ("c16.bsei_op.send_dummy", 1), ("c16.self_transfer_attempts", 1)],
             rule: "full-world histories heavy on bSei token operations; a case is a successful bSei-touching operation; distinct = (op kind, via allowance?, self transfer?, #holders, decade of supply)",
         },
         PropDef {
@@ -405,7 +405,7 @@ pub fn defs() -> Vec<PropDef> {
         },
         PropDef {
             id: "C19", salt: 19, budget: (400, 8_000, 100), specs: &[spec_c19],
-            required: &[("c19.updates_judged", 1), ("c19.updates_rebonding", 1), ("c19.updates_delivering_to_holders", 1), ("c19.updates_with_rewards_on_2plus_validators", 1), ("c19.updates_with_nothing_pending", 1), ("c19.updates_split_checked_both_pools", 1), ("c19.updates_inside_validator_removal", 1)],
+            required: &[("c19.updates_judged", 1), ("c19.updates_rebonding", 1), ("c19.updates_delivering_to_holders", 1), ("c19.updates_with_rewards_on_2plus_validators", 1), ("c19.updates_with_nothing_pending", 1), ("c19.updates_split_checked_both_pools", 1), ("c19.validator_removals_seen", 1)],
             rule: "full-world histories with multi-denomination reward accrual; a case is an UpdateGlobalIndex by the designated updater; distinct = (empty bSei pool?, empty stSei pool?, decades of rewards, extra denom?, re-bond?, holders?, in-flight batch?)",
         },
     ]
